@@ -55,6 +55,7 @@ partial def pStmt : P Stmt
   | "skip" :: r => some (.skip, r)
   | ";" :: r => do let (a, r) ← pStmt r; let (b, r) ← pStmt r; pure (.seq a b, r)
   | ":=" :: x :: r => do let (e, r) ← pExpr r; pure (.define x e, r)
+  | ":=2" :: x :: y :: r => do let (e, r) ← pExpr r; pure (.define2 x y e, r)
   | "=" :: x :: r => do let (e, r) ← pExpr r; pure (.assign x e, r)
   | "op=" :: x :: o :: r => do let op ← binop? o; let (e, r) ← pExpr r; pure (.opAssign x op e, r)
   | "++" :: x :: r => some (.inc x, r)
@@ -78,6 +79,7 @@ partial def pStmt : P Stmt
     let (b, r) ← pStmt r
     pure (.loop i c p b, r)
   | "ret" :: r => do let (e, r) ← pOptExpr r; pure (.ret e, r)
+  | "ret2" :: r => do let (e1, r) ← pExpr r; let (e2, r) ← pExpr r; pure (.ret2 e1 e2, r)
   | "brk" :: r => some (.brk, r)
   | "cont" :: r => some (.cont, r)
   | "blk" :: r => do let (b, r) ← pStmt r; pure (.block b, r)
@@ -111,7 +113,7 @@ def pFunc : P FuncDecl
     match r with
     | res :: r => do
       let (b, r) ← pStmt r
-      pure ({ name := name, params := ps, hasResult := res == "res", body := b }, r)
+      pure ({ name := name, params := ps, nres := (if res == "res" then 1 else if res == "res2" then 2 else 0), body := b }, r)
     | [] => none
   | _ => none
 
@@ -211,8 +213,8 @@ def step (s : DState) (ws : List String) : DState × String :=
     match pVals args with
     | some vs =>
       let r := match runFunc evalFuel s.prog f vs with
-        | .ok (some v) => s!"halt {showVal v}"
-        | .ok none => "halt -"
+        | .ok [] => "halt -"
+        | .ok vs => "halt " ++ " ".intercalate (vs.map showVal)
         | .panic => "fault"
         | .overflow => "overflow"
         | .stuck => "stuck"
